@@ -32,7 +32,7 @@ func runC18(c *Ctx) {
 	p := c.Progs["mod"]
 	c.Rule("C18.L", "liveness gate", 11)
 	c.Rule("C18.F", "shared fallback only when the user has no match", 3)
-	c.Rule("C18.N", "lookup by the request path; 404 when it fails", 2)
+	c.Rule("C18.N", "lookup by the user's e-mail and the request path; 404 when it fails", 3)
 	c.Rule("C18.S", "shape of the most-specific-prefix selection", 9)
 	ruleBackendDefinitionsVerbatim(c, p, "C18.S")
 	ruleBackendQueriesUnbounded(c, p, "C18.S")
@@ -301,6 +301,7 @@ func runC18(c *Ctx) {
 				h2, _ := (&Walk{Target: func(i ssa.Instruction) bool { return isStoreCall(i) || isAppHelperCall(i) }}).FromBlock(ifi.Block().Succs[fail])
 				ok = h1 == nil && h2 == nil
 			}
+			c.ArgIs("C18.N", "proxy:lookup-by-the-users-email", p, lb, 2, "the backend is chosen for the signed-in user's Email, the identity backends are registered under (not a display form of it: User.String() drops the domain of addresses in the auth domain)", "result:google.golang.org/appengine/v2/user.Current.Email")
 			c.ArgIs("C18.N", "proxy:lookup-by-decoded-request-path", p, lb, 3, "the backend is chosen by r.URL.Path, the decoded path the registered prefixes are written in", P(f, 4)+".URL.Path")
 			c.Check("C18.N", "proxy:no-backend-404", p, lb.Pos(), ok, "a failed lookup is answered 404 on every path, before any store access", "a failed backend lookup is not answered with 404 (or the store is touched first)")
 		}
